@@ -29,11 +29,11 @@ CAT = {
 }
 # in strict mode only patterns whose every match has a single spelling are used
 STRICT_OK = ['/a', '/a/', '/a/b', '/<x>', '/<x>/', '/a/<n:int>', '/<x>/<y>', '/a/<rest+>', '/c/<n:int>/']
-PATHS = ['/', '/a', '/a/', '/a/b', '/a/b/', '/a/7', '/b', '/b/q', '/q', '/q/', '/a/b/c', '//a', '/a//b', '/a/7/',
+PATHS = ['/a?v=2', '/a/b?v=2', '/q?v=2', '/a?v=1', '/', '/a', '/a/', '/a/b', '/a/b/', '/a/7', '/b', '/b/q', '/q', '/q/', '/a/b/c', '//a', '/a//b', '/a/7/',
          '/c/5', '/c/5/', '/c/x/', '/b/', '/a/07']
 METHODS = ['GET', 'HEAD', 'POST', 'PUT', 'DELETE', 'get', 'post', 'FOO', 'OPTIONS']
 METHOD_SETS = [None, None, [], ['GET'], ['POST'], ['get', 'PUT'], ['DELETE', 'POST'], ['HEAD'], ['GET', 'POST', 'PUT']]
-OUTCOMES = ['ok', 'ok', 'ok', 'brk404', 'brk503', 'brk409_ret', 'brk400_ret', 'nb403_raise', 'nb404_ret', 'nb404_raise', 'nb403_ret', 'boom']
+OUTCOMES = ['qdep', 'qdep', 'ok', 'ok', 'ok', 'brk404', 'brk503', 'brk409_ret', 'brk400_ret', 'nb403_raise', 'nb404_ret', 'nb404_raise', 'nb403_ret', 'boom']
 class SimTemplateError(LookupError):
     pass
 
@@ -57,14 +57,14 @@ def make_render_factory(ftag):
     return factory
 
 
-STATUS = {'nbS403': 403, 'nbS404': 404, 'ok': 200, 'brk404': 404, 'brk503': 503, 'brk409_ret': 409, 'brk400_ret': 400, 'nb403_raise': 403,
+STATUS = {'qdep': 200, 'nbS403': 403, 'nbS404': 404, 'ok': 200, 'brk404': 404, 'brk503': 503, 'brk409_ret': 409, 'brk400_ret': 400, 'nb403_raise': 403,
           'nb404_ret': 404, 'nb404_raise': 404, 'nb403_ret': 403, 'boom': 500}
 
 
 def make_endpoint(tag, out, shared=None):
     """Endpoint echoing which route answered (X-R) and which resources are in scope.
     shared: {'nbS403': error object, ...} pre-built error objects that several routes hand back"""
-    def ep(_route, _application):
+    def ep(_route, _application, request):
         if out in ('nbS403', 'nbS404'):
             return shared[out]
         h = {'X-R': tag, 'X-Route-Res': ','.join(sorted(_route.resources)),
@@ -74,6 +74,11 @@ def make_endpoint(tag, out, shared=None):
             return {'tag': tag, 'route_res': h['X-Route-Res'], 'app_res': h['X-App-Res']}
         if out == 'ok':
             return Response('ok:' + tag, headers=h)
+        if out == 'qdep':
+            # answers or declines depending on the QUERY STRING (an API version, a feature flag), not on the path
+            if request.args.get('v') == '2':
+                return Response('ok:' + tag, headers=h)
+            raise NotFound(is_breaking=False, headers=h)
         if out == 'brk404':
             raise NotFound(headers=h)
         if out == 'brk503':
@@ -137,14 +142,18 @@ def path_matches(entry, path):
 
 
 def dispatch_model(table, path, method):
-    """table: ordered entries {pattern, prefix, mode, methods, out, tag}.
+    """table: ordered entries {pattern, prefix, mode, methods, out, tag}; path may carry a query string.
     -> dict(status, tag, allow, location)   (sequential model of the one dispatch loop)"""
+    path, _, query = path.partition('?')
     p = seen_path(path)
     last_nb = None
     allowed = set()
     for e in table:
         if not path_matches(e, path):
             continue
+        out = e['out']
+        if out == 'qdep':
+            out = 'ok' if 'v=2' in query.split('&') else 'nb404_raise'
         ok, ms = admits(e['methods'], method)
         if not ok:
             allowed |= ms
@@ -152,18 +161,18 @@ def dispatch_model(table, path, method):
         branch = e['pattern'].endswith('/')
         if branch and norm(p, True) != p and e.get('mode', 'redirect') == 'redirect':
             return {'status': 302, 'tag': None, 'allow': None, 'location': norm(p, True)}
-        if e['out'] == 'ctx':
+        if out == 'ctx':
             if e.get('render'):
                 return {'status': 200, 'tag': e['tag'], 'allow': None, 'location': None, 'entry': e}
             return {'status': 500, 'tag': None, 'allow': None, 'location': None}     # context without a renderer
-        st = STATUS[e['out']]
-        if e['out'].startswith('nbS'):
-            last_nb = (st, 'shared-' + e['out'])      # the one pre-built object several routes return
+        st = STATUS[out]
+        if out.startswith('nbS'):
+            last_nb = (st, 'shared-' + out)      # the one pre-built object several routes return
             continue
-        if e['out'].startswith('nb'):
+        if out.startswith('nb'):
             last_nb = (st, e['tag'])
             continue
-        return {'status': st, 'tag': e['tag'] if e['out'] != 'boom' else None, 'allow': None, 'location': None,
+        return {'status': st, 'tag': e['tag'] if out != 'boom' else None, 'allow': None, 'location': None,
                 'entry': e}
     if last_nb:
         return {'status': last_nb[0], 'tag': last_nb[1], 'allow': None, 'location': None}
